@@ -51,3 +51,33 @@ Definition asset_case (model : option aprob) (impl_ok : bool) (P : lp) (mp : lis
   | None => [negb impl_ok; true; true; true; true; true]      (* both reject *)
   | Some a => impl_ok :: lp_close (ap_lp a) P ++ [map_close (ap_map a) mp || map_close_perm (ap_map a) mp]
   end.
+
+(* ---------- portfolios ---------- *)
+From EAO Require Import Portfolio.
+Fixpoint seq_opts {A} (l : list (option A)) : option (list A) :=
+  match l with
+  | [] => Some []
+  | Some a :: r => option_map (cons a) (seq_opts r)
+  | None :: _ => None
+  end.
+Definition build_portfolio (g : grid) (nodes : list string) (aps : list (option aprob)) : option aprob :=
+  obind (seq_opts aps) (fun l => Some (portfolio nodes [] (g_I g) l)).
+
+(* ---------- C07 ---------- *)
+Fixpoint all_le (l u : vec) : bool :=
+  match l, u with a :: l', b :: u' => Qle_bool a b && all_le l' u' | [], [] => true | _, _ => false end.
+(* a variable without mapping row has zero cost and occurs in no constraint *)
+Definition unmapped_ok (P : lp) (mp : list mrow) : bool :=
+  forallb (fun v => existsb (fun r => Nat.eqb (m_var r) v) mp ||
+                    (Qeq_bool (nth v (lp_c P) 0) 0 &&
+                     forallb (fun r => forallb (fun e => negb (Nat.eqb (fst e) v) || Qeq_bool (snd e) 0) (r_a r)) (lp_rows P)))
+          (seq 0 (nvars P)).
+Fixpoint nodup_sn (l : list (nat * string)) : bool :=
+  match l with [] => true | a :: r => negb (existsb (sn_eqb a) r) && nodup_sn r end.
+Definition c07_case (T : nat) (nodes names : list string) (steps : list nat) (parts : list aprob)
+    (P : lp) (mp : list mrow) (rec : list (nat * string)) : list bool :=
+  let m := portfolio nodes [] steps parts in
+  lp_close (ap_lp m) P ++
+  [ map_close (ap_map m) mp;
+    steps_nodes_eqb (nodal_map nodes [] steps (ap_map m)) rec;
+    wf_lpb P; all_le (lp_l P) (lp_u P); wf_mapb (nvars P) T (lp_c P) names mp; unmapped_ok P mp; nodup_sn rec ].
